@@ -193,8 +193,89 @@ def _z3num(val, sort):
         return 0.0
 
 
+def _nonlinear(ts) -> bool:
+    for x in tm.subterms(ts):
+        if x.op in ("powi", "sqrt", "fn", "trunc", "mod", "floordiv"):
+            return True
+        if x.op == "div" and not tm.is_const(x.args[1]):
+            return True
+        if x.op == "mul" and sum(1 for a in x.args if not tm.is_const(a)) >= 2:
+            return True
+    return False
+
+
+ISOLATED = {"calls": 0, "killed": 0}
+
+
 def z3_check(pc: Sequence[T], goal: Optional[T], timeout_ms: int, want_model=True):
-    """Is pc ∧ ¬goal satisfiable?  goal None: is pc satisfiable?"""
+    """Is pc ∧ ¬goal satisfiable?  goal None: is pc satisfiable?
+
+    Non-linear queries run in a forked child that is killed at the deadline: z3's own timeout is
+    cooperative and its non-linear core can sit in big-number arithmetic far beyond it."""
+    ts = list(pc) + ([goal] if goal is not None else [])
+    if not _nonlinear(ts):
+        return _z3_check(pc, goal, timeout_ms, want_model)
+    import os
+    import pickle
+    import select
+    import signal as _signal
+
+    ISOLATED["calls"] += 1
+    r_fd, w_fd = os.pipe()
+    pid = os.fork()
+    if pid == 0:  # child
+        code = 0
+        try:
+            os.close(r_fd)
+            _signal.setitimer(_signal.ITIMER_REAL, 0)
+            try:
+                res = _z3_check(pc, goal, timeout_ms, want_model)
+            except tm.Unsupported as e:
+                res = ("unsupported", str(e), 0.0)
+            data = pickle.dumps(res)
+            os.write(w_fd, len(data).to_bytes(8, "little") + data)
+        except BaseException:  # noqa: BLE001
+            code = 1
+        finally:
+            os._exit(code)
+    os.close(w_fd)
+    deadline_s = time.time() + timeout_ms / 1000.0 + 1.5
+    buf = b""
+    result = None
+    try:
+        while True:
+            left = deadline_s - time.time()
+            if left <= 0:
+                break
+            ready, _, _ = select.select([r_fd], [], [], min(left, 0.5))
+            if ready:
+                chunk = os.read(r_fd, 1 << 20)
+                if not chunk:
+                    break
+                buf += chunk
+                if len(buf) >= 8 and len(buf) - 8 >= int.from_bytes(buf[:8], "little"):
+                    result = pickle.loads(buf[8:8 + int.from_bytes(buf[:8], "little")])
+                    break
+    finally:
+        os.close(r_fd)
+        if result is None:
+            ISOLATED["killed"] += 1
+            try:
+                os.kill(pid, _signal.SIGKILL)
+            except ProcessLookupError:
+                pass
+        try:
+            os.waitpid(pid, 0)
+        except ChildProcessError:
+            pass
+    if result is None:
+        return "unknown", "hard timeout (solver process killed)", timeout_ms / 1000.0
+    if result[0] == "unsupported":
+        raise tm.Unsupported(result[1])
+    return result
+
+
+def _z3_check(pc: Sequence[T], goal: Optional[T], timeout_ms: int, want_model=True):
     zc = Z3Ctx()
     fs = [zc.tr(c) for c in pc]
     if goal is not None:
@@ -236,10 +317,22 @@ class Feasibility:
         if key in self.cache:
             return self.cache[key]
         self.calls += 1
+        r, dt = "unknown", 0.0
         try:
-            r, _, dt = z3_check(list(pc) + [t], None, self.timeout_ms, want_model=False)
+            ts = list(pc) + [t]
+            if _nonlinear(ts):
+                # cheap first: on the abstraction (sound for "infeasible")
+                ab, facts = abstract(ts, limit=6)
+                ra, _, dta = _z3_check(ab + facts, None, self.timeout_ms, want_model=False) if not _nonlinear(ab + facts) \
+                    else z3_check(ab + facts, None, self.timeout_ms, want_model=False)
+                dt += dta
+                if ra == "unsat":
+                    r = "unsat"
+            if r != "unsat":
+                r, _, dt2 = z3_check(ts, None, self.timeout_ms, want_model=False)
+                dt += dt2
         except tm.Unsupported:
-            r, dt = "unknown", 0.0
+            r = "unknown"
         self.time += dt
         out = False if r == "unsat" else (True if r == "sat" else None)
         self.cache[key] = out
@@ -367,6 +460,15 @@ def discharge(pc: Tuple[T, ...], goal: T, timeout_s: float, poly_backend=None) -
                 return done("proved", "ideal-sympy", text=why)
         except tm.Unsupported as e:
             res["text"] = f"poly: {e}"
+    # 1b. rewrite with the equalities of the path condition (lemmas): larger side -> smaller side
+    try:
+        from . import poly as _poly
+
+        pc, goal = _poly.rewrite_vc(pc, goal)
+        if goal is tm.TRUE or goal in pc:
+            return done("proved", "rewriting")
+    except tm.Unsupported:
+        pass
     # 2. congruence of opaque atoms (sqrt, trig, pow ...): unify provably equal applications
     cpc, cgoal = pc, goal
     try:
